@@ -1,6 +1,6 @@
-SPECIFICATION WdSpec
+SPECIFICATION WdOnlySpec
 CONSTANTS
-  Nodes = {"n1", "n2"}
+  Nodes = {"n1"}
   AsyncNodes = {}
   Kinds = {"ts", "spl"}
   ParallelNum = 1
@@ -15,7 +15,7 @@ CONSTANTS
   QDefaultSync = FALSE
   QHeaderIgnored = FALSE
   WT = 1
-  MaxNow = 11
+  MaxNow = 16
   WdKinds <- WdKindsLogs
   QWdFirst = FALSE
 INVARIANTS WdExitOnlyIfStale WdNoStaleSkipped WdExitWithinPeriod
